@@ -250,6 +250,32 @@ def main():
       except Exception as e:  # pylint: disable=broad-except
         viol(kind='crash', what='second Optimize raised %s: %s' % (type(e).__name__, e), src=src, setting=st)
 
+  def check_local_classes(src, name, must_mention, cause):
+    """Stubs with local classes (outside the value universe): the optimised type of `name` must still mention every
+    class of `must_mention` (classes unrelated to the other members of the union)."""
+    nonlocal ncase
+    try:
+      ast = parse_and_resolve(src)
+    except Exception:  # pylint: disable=broad-except
+      return
+    for st in SETTINGS:
+      ncase += 1
+      opt = optimize.Optimize(ast, builtins, **st)
+      before = pytd_utils.Print(ast.Lookup(name).type)
+      after = pytd_utils.Print(opt.Lookup(name).type)
+      for cls in must_mention:
+        if cls in before and cls not in after.replace('Outer.' + cls, ''):
+          viol(kind='narrowed', cause=cause, what='constant %s: %s -> %s no longer admits instances of the unrelated class %s' % (name, before, after, cls),
+               src=src, setting=st)
+
+  # F14 (known finding): a nested class that shares its bare name with an unrelated top-level class
+  check_local_classes('from typing import Union\nclass A: ...\nclass Inner: ...\nclass Outer:\n  class Inner(A): ...\nc: Union[Inner, A]\n',
+                      'c', ['Inner'], 'F14-nested-class-shares-bare-name')
+  # controls without the name clash (must hold): unrelated classes stay, a genuine subclass may be absorbed
+  check_local_classes('from typing import Union\nclass A: ...\nclass Inner: ...\nclass Outer:\n  class Nested(A): ...\nc: Union[Inner, A]\n',
+                      'c', ['Inner'], 'other')
+  check_local_classes('from typing import Union\nclass A: ...\nclass B: ...\nclass C(A): ...\nc: Union[B, C, A]\n', 'c', ['B'], 'other')
+
   HDR = 'from typing import Any, Callable, List, Tuple, Union\n'
   # fixed regression inputs (known finding F8 is replayed on every run)
   check_stub('from typing import overload, Union\n@overload\ndef f(x: int) -> int: ...\n@overload\ndef f(x: Union[bool, int]) -> str: ...\n')
